@@ -400,11 +400,12 @@ fn gen_lag_pattern(rng: &mut Rng, n: usize) -> Vec<J> {
         }
         v.push(json!({"op":"mesh"}));
     }
-    let del = NAMES[rng.below(n as u64) as usize];                    // the replica that deletes and trims
+    // the replica that deletes and trims: usually the one whose old change ids the long-lived entries carry
+    let del = if rng.chance(3, 4) { creator } else { NAMES[rng.below(n as u64) as usize] };
     let mut stale = NAMES[rng.below(n as u64) as usize];              // the replica that stays out of contact
     while stale == del { stale = NAMES[rng.below(n as u64) as usize]; }
     let victim = rng.range(1, 2);
-    if rng.chance(1, 2) { v.push(json!({"op":"setdn","r":stale,"e":victim,"v":"d9"})); }
+    if rng.chance(3, 4) { v.push(json!({"op":"setdn","r":stale,"e":victim,"v":"d9"})); }
     if rng.chance(1, 3) { v.push(json!({"op":"addmem","r":stale,"g":5,"m":victim})); }
     v.push(json!({"op":"delete","r":del,"e":victim}));
     if rng.chance(1, 3) { v.push(json!({"op":"repl","from":del,"to":stale})); }
@@ -414,7 +415,7 @@ fn gen_lag_pattern(rng: &mut Rng, n: usize) -> Vec<J> {
     v.push(json!({"op":"advance","dt":604_801 + rng.below(100_000)}));
     v.push(json!({"op":"purge_ts","r":del}));
     // local writes on old entries after the trim
-    for _ in 0..rng.below(3) {
+    for _ in 0..rng.range(1, 3) {
         let k = rng.below(3);
         let op = match k {
             0 => json!({"op":"setdn","r":del,"e":3,"v":format!("d{}", rng.below(5))}),
